@@ -401,6 +401,28 @@ func c06Run(c *Ctx) {
 	c.Distinct("optional-input-pattern", op+rc.pattern)
 	mo := mon.ModelOpts{InitMask: uint64(c.R.Intn(256)) &^ 1, RawInits: c.R.Bool(), Truncate: c.R.Bool()}
 	ok := CheckOp(c, rc.req, rc.exp, c.Idx%4 == 0, mo, nil)
+	if ok && c.Idx%8 == 1 {
+		// the node spells its omitted trailing outputs as "": the operator still answers one tensor per
+		// position, bound by position (the same request, one or two trailing names blanked)
+		req2 := rc.req
+		names := append([]string{}, rc.req.OutNames...)
+		if len(names) == 0 {
+			for i := 0; i < rc.req.NOutputs; i++ {
+				names = append(names, fmt.Sprintf("o%d", i))
+			}
+		}
+		for k := c.R.Range(1, len(names)-1); k > 0; k-- {
+			names[len(names)-k] = ""
+		}
+		req2.OutNames = names
+		o2, _ := mon.RunOpAPI(req2)
+		c.Eval(1)
+		c.Count("requests-with-trailing-outputs-spelled-empty", 1)
+		if v := Judge(rc.exp, o2); !v.OK {
+			ok = false
+			report(c, fmt.Sprintf("api, output names %q", names), req2, rc.exp, o2, v, nil)
+		}
+	}
 	if rc.exp.Kind == MustError || !ok {
 		return
 	}
